@@ -10,6 +10,33 @@ BUILT = {
  "C02": dict(tech="TLA+ function of Python/NumPy one-axis index semantics enumerated exhaustively by TLC (with algebraic invariants); every enumerated point replayed as implementation tests on both axes against the spec, an in-memory twin and a reference lazy backend",
              text="TLC evaluates PyIndex on every int / slice(start,stop,step) / small integer array / boolean mask for axis lengths 1..4 (1..5 thorough) and checks seven invariants; each point is applied through isel and [] on rows and columns of lazily opened images (both sample types, several rpc) and must be identical (shape, dims, coords, bits) to the spec's positions and to the in-memory twin; outer / vectorised / label selections are compared lazy-vs-twin.",
              note="operations that xarray's own lazy indexing of a reference BASIC backend does not support (e.g. empty negative-step slices in this xarray version) are outside 'any operation xarray accepts' and counted as skipped; PyIndex is cross-checked against NumPy on every run", ref="6 C02"),
+ "C03": dict(tech="frozen TLA+ field tables (Layout/OutMap) walked by a TLC-checked state machine (Fields.tla) + value plans replayed through open_alos2 with leaf-by-leaf comparison",
+             text="TLC checks Contiguous/EndsAtLength/KindWidth/Classified/UnitsAreOnVariables/WellTypedSlots over every record; 12 rotation plans put every token class (0, 1, max, every enum code, leap-year stamps ...) into every line-prefix field of every line, plus optional-header blank/zero/filled, midnight-crossing lines, several images per process; every mapped leaf of /imagery/<name> is compared.",
+             note="Layout.tla/OutMap.tla are frozen transcriptions bootstrapped once from the pinned commit (change detectors anchored on CEOS record sizes); placement of level-1.1 nested structs is free", ref="6 C03"),
+ "C04": dict(tech="frozen TLA+ field tables + TLC-checked table walk (Fields.tla) + value plans over all ~900 leader fields replayed through open_alos2",
+             text="Every leader field receives tokens of rotating classes (F/E/e notation, signs, left/right padding, zero padding, 1e+-300, subnormal, -0.0, every code) across 1/2/136 attitude points, 1/8/16 channels, projection absent/UTM/UPS/LCC/MER; every leaf under /metadata is compared (value within 4 ulp of the exact scaled rational or the double product, unit, name, dims, path).",
+             note="same provenance limits as C03; Python's float()/int() digit parsing is trusted", ref="6 C04"),
+ "C07": dict(tech="TLA+ cache life-cycle model (TLC exhaustive over histories) + producer x location x filesystem x rpc matrix driven on real products with tree identity, tracefs source observation and poisoned-index controls",
+             text="Cache.tla: ResultIdeal/NoConsultWhenDisabled over all bounded histories; on real 1.1/1.5 products on 4 filesystems each producer (option, CLI adjacent, both, CLI into the user cache dir) is followed by a cached open with another rpc (identical tree, pixels through the cached array, no line-record reads, index read), a use_cache=False open over a poisoned index (no effect, no index read) and a cache-less open.",
+             note="lookup order between the two locations is not prescribed; CLI for non-local products runs on a local twin", ref="6 C07"),
+ "C08": dict(tech="TLA+ codec algebra (tuple tagging, nesting, datetime reference/offset with NaT, shapes) checked exhaustively by TLC + extreme concrete representatives per class decoded in a fresh process with bit-level comparison",
+             text="TLC checks Decode(Encode(v)) = v on every abstract value of the bounded family (and that the reference-first-element variant loses values); ~60 extreme representatives per dtype kind/shape/NaT class/attr nesting/backend array/hierarchy plus every image group produced under rotating value plans are encoded, handed as text to a fresh process, decoded and compared bit for bit.",
+             note="digit exactness is decided by the byte comparison on representatives (the spec decides structure); complex is outside the property's kind list", ref="6 C08"),
+ "C09": dict(tech="TLA+ cache model with Crash at every pc, block-grain torn cells, two processes (TLC exhaustive, liveness under fairness) + byte-grain planted prefixes of the real index + real interrupted writers (RLIMIT_FSIZE, SIGKILL, strace-held writer, racing writers)",
+             text="MC_Cache_crash/hist/live hold and MC_Cache_bug fails as required; every prefix length (quick: structural boundaries +-1 + evenly spaced; thorough: every byte) of each image's real index document is planted in local/adjacent/both on 4 filesystems and followed by default open, create_cache, use_cache (always the uncached tree; local cache complete afterwards); real crashes leave kernel-cut files that are then opened.",
+             note="crash model = prefixes (truncate then write front to back); holes only between writers of identical documents", ref="6 C09"),
+ "C10": dict(tech="TLA+ cache model explored breadth-first over all bounded operation histories + TLC-simulated behaviours replayed macro-step by macro-step on real products with tree / directory / option-dict comparison after every step",
+             text="MC_Cache_hist checks ResultIdeal, NoConsultWhenDisabled, CacheWritesOnlyWhenAsked, RepairAfterCreate over every history of {open x uc x cc x rpc, CLI, delete, tear} on two images; simulated 7-step behaviours are executed on level 1.1/1.5 products on 4 filesystems: identical tree to a fresh uncached open after each step, product dir touched only by the CLI (+<image>.index), cache dir only when asked, options/defaults unmutated.",
+             note="cross-product aliasing of the cache key (same root string on another filesystem) is outside the property (same product)", ref="6 C10"),
+ "C12": dict(tech="TLA+ dtype-kind table (Fields.tla WellTypedSlots, TLC) + walk of every variable/attribute of real trees (declared vs loaded dtype/shape, repr/nbytes, selections)",
+             text="TLC checks that every exposed field has kind in biufcMmU and that all fields feeding a variable agree; trees of 1.1/1.5/3.1 products (1-4 images, three designators, value plans) are walked: numpy dtype advertised before loading, declared == loaded shape/dtype, plain attribute types, repr/str/nbytes of tree and datasets, 11 selections keep declared == loaded.",
+             note="numpy scalars count as plain scalars; None/dict/ndarray attributes do not", ref="6 C12"),
+ "C16": dict(tech="frozen TLA+ field tables + Framing/Fields models (TLC) + value plans over the volume directory with 0..12 file pointers replayed through open_alos2",
+             text="Every text field of the volume descriptor and text record holds tokens of rotating classes (full width, inner/leading blanks, quotes, punctuation, blank) with 5 boundary creation timestamps and every pointer count 0..12; root attributes compared (stripped text, creation time as an instant).",
+             note="same provenance limits as C03", ref="6 C16"),
+ "C20": dict(tech="TLA+ role table (nullable / required / spare, Fields.tla, TLC) + one product per nullable field blanked, random blank subsets, spare areas overwritten with random content of their class, (thorough) byte-wise influence map",
+             text="All ~800 nullable fields are blanked individually (and in subsets, and all at once): the product opens and every mapped leaf has the expected value (NaN/-1/''/absent); all spare/blank/reserved areas are overwritten (printable text, numbers, arbitrary bytes) and the complete tree incl. pixels must be identical; thorough adds one open per byte of leader/volume/descriptor/prefixes.",
+             note="nullable = ASCII field of role value in Layout.tla", ref="6 C20"),
  "C05": dict(tech="TLA+ writer/reader framing state machine (TLC exhaustive over declared counts/lengths) + replay of every enumerated instance into the real reader",
              text="TLC checks CursorAligned/InadmissibleRejected/EndsAtTotal for attitude 1..136 points (incl. non-standard record lengths), channels 1..16, facility lengths^4, 0/1 map projection, 0..12 file pointers, 0..7 low-res images; every admissible instance is synthesised from the TLC-placed layout and every leaf behind the variable-length record is compared.",
              note="trusts TLC, the frozen Layout.tla; the leader cross product is covered one dimension at a time plus the full facility-length cross (additivity of framing)", ref="6 C05"),
